@@ -267,6 +267,9 @@ def run_history(job, acc):
     if job[0] == 'agents':
         agents.judge(job[1:], acc, 'C10')
         return
+    if job[0] == 'replace':
+        run_replace(job, acc)
+        return
     init_i, history, issuer, kind, ts_pair, op_first = job
     init = INITS[init_i]
     ts_of = {'a': ts_pair[0], 'b': ts_pair[1]}
@@ -614,8 +617,78 @@ def run_bare_move(job, acc):
           f'{total}')
 
 
+def run_replace(job, acc):
+    """A _generate onto a key that holds a compartment whose process has
+    an update IN FLIGHT replaces that process: the old one contributes
+    nothing more, the new one is invoked from the time it was put there."""
+    from vivarium.core.engine import Engine
+    _, tick, old_ts, new_ts, issuer = job
+    case = {'special': 'replace', 'job': job}
+    acc.case(key=job, outcome='replace')
+    V = lambda rule, fp, msg: acc.violate(  # noqa
+        fw.violation(rule, fp, msg, case))
+
+    def worker(pid, ts, amount):
+        return probes.Probe({
+            'pid': pid, 'ts': ts, 'log_states': False,
+            'schema': {'out': {'v': {'_default': 0, '_emit': True}}},
+            'update': {'out': {'v': amount}}})
+    new = worker('new', new_ts, 1)
+    n = tick if issuer == 'process' else tick + 1
+    gen = {'pid': 'gen', 'log_states': False,
+           'schema': {'agents': {'*': {}}},
+           'update': {'$n': {n: {'agents': {'_generate': [{
+               'key': 'c', 'processes': {'w': new},
+               'topology': {'w': {'out': ('b',)}},
+               'initial_state': {}}]}}}, '$else': {}}}
+    tick_p = probes.Probe({'pid': 'tick', 'ts': 1, 'log_states': False,
+                           'schema': {'t': {'n': {'_default': 0}}},
+                           'update': {'t': {'n': 1}}})
+    kw = {'processes': {'tick': tick_p,
+                        'agents': {'c': {'w': worker('old', old_ts, 100)}}},
+          'topology': {'tick': {'t': ('clock',)},
+                       'gen': {'agents': ('agents',)},
+                       'agents': {'c': {'w': {'out': ('a',)}}}}}
+    if issuer == 'step':
+        kw['steps'] = {'gen': probes.ProbeStep(gen)}
+        kw['flow'] = {'gen': []}
+    else:
+        kw['processes']['gen'] = probes.Probe(dict(gen, ts=1))
+    try:
+        eng = Engine(emitter={'type': 'timeseries'}, display_info=False,
+                     **kw)
+        eng.update(tick + 1 + 4 * new_ts)
+        data = eng.emitter.get_data()
+    except Exception as e:  # noqa
+        V('C10.crash', f'replace:{type(e).__name__}',
+          f'{job}: unexpected {e!r}'[:400])
+        return
+    t_r = tick + 1
+    done = (t_r // old_ts)          # intervals the old process completed
+    got = {t: (d['agents']['c'].get('a', {}).get('v'),
+               d['agents']['c'].get('b', {}).get('v', 0))
+           for t, d in data.items()}
+    want = {t: (100 * min(int(t // old_ts), done),
+                max(0, int((t - t_r) // new_ts)))
+            for t in data}
+    if got != want:
+        bad = next(t for t in sorted(got) if got[t] != want[t])
+        V('C10.schedule', 'replaced-process-still-contributes-or-new-one-'
+          'starts-late',
+          f'{job}: process w (timestep {old_ts}, adds 100 to a) is '
+          f'replaced at t={t_r} by one with timestep {new_ts} that adds 1 '
+          f'to b: (a, b) over time {got}, expected {want} (first '
+          f'difference at t={bad})')
+
+
 def jobs(ctx):
     out = []
+    for tick in (0, 1):
+        for old_ts, new_ts in ((3, 1), (4, 2), (1, 1)):
+            for issuer in ('process', 'step'):
+                if (tick + 1) % old_ts == 0 and issuer == 'process':
+                    continue     # due in the same batch: order is moot
+                out.append(('replace', tick, old_ts, new_ts, issuer))
     for tick in (0, 1, 2):
         for ts in (1, 2, 3):
             for issuer in ('step', 'process'):
@@ -659,7 +732,9 @@ def replay(case):
     def tup(x):
         return tuple(tup(y) for y in x) if isinstance(x, (list, tuple)) \
             else x
-    if case.get('special') == 'bare-move':
+    if case.get('special') == 'replace':
+        run_replace(tup(case['job']), acc)
+    elif case.get('special') == 'bare-move':
         run_bare_move(tup(case['job']), acc)
     elif case.get('family') == 'agents':
         agents.judge(tup(case['job']), acc, 'C10')
@@ -667,3 +742,6 @@ def replay(case):
         run_history((case['init'], tup(case['history']), case['issuer'],
                      case['kind'], tup(case['ts']), case['op_first']), acc)
     return [v for exs in acc.viol_examples.values() for v in exs]
+
+RULE += (
+    ' Replace family: a _generate onto a key whose compartment holds a process with an update in flight (timesteps 3 / 4, and the idle case 1) puts a new process with another wiring there: the old one contributes nothing more, the new one is invoked from that time on.')
